@@ -16,8 +16,8 @@ import traceback
 import numpy as np
 
 from sim import clock as simclock
-from sim.core import (EventLog, HarnessError, SimCrash, Violation, arr_digest,
-                      canon, rel_err, sha, stream)
+from sim.core import (EventLog, HarnessError, NameCanon, SimCrash, Violation,
+                      arr_digest, canon, rel_err, seed_tempfile, sha, stream)
 from sim.disk import InjectIOError, SimDisk, crash_image, materialize, _REAL
 from . import specs as S
 
@@ -292,6 +292,8 @@ class Run:
         self.disk = SimDisk(self.run_dir)
         _cur["disk"] = self.disk
         self.log = EventLog()
+        self.names = NameCanon()
+        seed_tempfile(record.get("seed", 0))
         self.model = {}
         self.model_step = {}
         self.intact = {}  # spec key -> entry file
@@ -475,7 +477,7 @@ class Run:
                 if info.get(kk):
                     self.fire("crash." + kk + ("=" + info[kk] if kk == "rename_mode" else ""))
             self.disk.reset_to_image(files, dirs)
-            self.log.add(k, "crash", a["at"], a.get("hit_kind"), a["model"], sorted((p, len(d)) for p, d in files.items()))
+            self.log.add(k, "crash", a["at"], a.get("hit_kind"), a["model"], sorted((self.names(p), len(d)) for p, d in files.items()))
             # nothing this process acknowledged is trusted to have survived a
             # power loss; after a kill only entries this request touched are suspect
             touched = {op2[1] for op2 in self.disk.journal[j0:] if op2[0] in ("CREATE", "WRITE", "TRUNC")} | {op2[2] for op2 in self.disk.journal[j0:] if op2[0] == "RENAME"}
@@ -659,7 +661,7 @@ class Run:
         self.disk.verify()
         self.intact.clear()
         self.bad_files.clear()
-        self.log.add(k, "clear", self.entry_files())
+        self.log.add(k, "clear", sorted(self.names(f) for f in self.entry_files()))
 
     def measure_put(self):
         """How many hook points one storing request has on this tree (so that
